@@ -47,7 +47,7 @@ def C09(ctx):
                  ("path_segs", 3 if q else 5)],
                 [("path", 4000 if q else 200000), ("elem", 2000 if q else 50000)])
     return dict(
-        rule="E: TLC enumerates every byte x 5 spellings x 3 contexts x 2 modes, every %xy over ASCII pairs, truncated "
+        rule="E: TLC enumerates every byte x 5 spellings x 3 contexts x 2 modes, every %%xy over ASCII pairs, truncated "
              "escapes, and every path of <= %d segments over the 15-symbol segment alphabet in both modes; R: seeded "
              "random paths/elements over all UTF-8. Each is executed through canonicalize_uri_path / "
              "normalize_uri_path_component and judged by TLC re-evaluating UriCanon!CanonPath on the recorded input. "
